@@ -241,7 +241,10 @@ theorem declared_refs (S : Schema) (c : Nat) (kd : Key × Val) (h : kd ∈ S.dec
     intro r hr
     cases hp : p.2 with
     | int t d => cases d <;> simp [FTy.default, hp, Val.refs] at hr
-    | arr e cnt => simpa [FTy.default, hp, Val.refs] using hr
+    | arr e cnt =>
+      cases hf : S.freshArrayDefault
+      · simpa [FTy.default, hp, hf, Val.refs] using hr
+      · simp [FTy.default, hp, hf, Val.refs] at hr
     | recd c => simp [FTy.default, hp, Val.refs] at hr
   · simp only [List.mem_map] at h
     obtain ⟨e, _, rfl⟩ := h
@@ -249,6 +252,24 @@ theorem declared_refs (S : Schema) (c : Nat) (kd : Key × Val) (h : kd ∈ S.dec
     cases e with
     | field t ty => cases ty <;> simp [XEntry.default, Val.refs] at hr
     | group t g => simp [XEntry.default, Val.refs] at hr
+  · simp at h
+
+/-- with the repaired default no declared default is a reference at all -/
+theorem declared_refs_fresh (S : Schema) (hS : S.freshArrayDefault = true) (c : Nat) (kd : Key × Val)
+    (h : kd ∈ S.declared c) : kd.2.refs = [] := by
+  unfold Schema.declared at h
+  split at h
+  · simp only [List.mem_map] at h
+    obtain ⟨p, _, rfl⟩ := h
+    cases hp : p.2 with
+    | int t d => cases d <;> simp [FTy.default, Val.refs]
+    | arr e cnt => simp [FTy.default, hS, Val.refs]
+    | recd c => simp [FTy.default, Val.refs]
+  · simp only [List.mem_map] at h
+    obtain ⟨e, _, rfl⟩ := h
+    cases e with
+    | field t ty => cases ty <;> simp [XEntry.default, Val.refs]
+    | group t g => simp [XEntry.default, Val.refs]
   · simp at h
 
 theorem deref_agree (S : Schema) (Q : Owner → Prop) (h h' : Cells)
@@ -264,6 +285,7 @@ theorem deref_agree (S : Schema) (Q : Owner → Prop) (h h' : Cells)
     | int i => rfl
     | str s => rfl
     | none => rfl
+    | elist => rfl
     | ref a =>
       obtain ⟨c, hc, hq⟩ := hv a (by simp [Val.refs])
       have hc' := hagree a c hc hq
@@ -352,8 +374,24 @@ theorem storeGet_mem {st : List (Key × Val)} {k : Key} {v : Val} (h : storeGet 
     simp [hf] at h
     exact ⟨kv, List.mem_of_find?_eq_some hf, h⟩
 
+/-- the declared defaults of the schema only refer to cells tagged `Q` -/
+def DefaultsIn (S : Schema) (Q : Owner → Prop) (h : Cells) : Prop :=
+  ∀ (c : Nat) (kd : Key × Val), kd ∈ S.declared c → RefsIn Q h kd.2.refs
+
+theorem defaultsIn_of_zero {S : Schema} {Q : Owner → Prop} {h : Cells} (h0 : RefsIn Q h [0]) : DefaultsIn S Q h := by
+  intro c kd hkd r hr
+  have := declared_refs S c kd hkd r hr
+  subst this
+  exact h0 0 (by simp)
+
+theorem defaultsIn_of_fresh {S : Schema} (hS : S.freshArrayDefault = true) (Q : Owner → Prop) (h : Cells) :
+    DefaultsIn S Q h := by
+  intro c kd hkd r hr
+  rw [declared_refs_fresh S hS c kd hkd] at hr
+  simp at hr
+
 theorem readKey_owned {S : Schema} {h : Cells} {a : Addr} {k : Key} {v : Val} {Q : Owner → Prop}
-    (hcl : Closed h) (h0 : RefsIn Q h [0]) (ha : RefsIn Q h [a]) (hr : readKey S h a k = .ok v) :
+    (hcl : Closed h) (h0 : DefaultsIn S Q h) (ha : RefsIn Q h [a]) (hr : readKey S h a k = .ok v) :
     RefsIn Q h v.refs := by
   obtain ⟨c, hc, hq⟩ := ha a (by simp)
   unfold readKey at hr
@@ -380,12 +418,9 @@ theorem readKey_owned {S : Schema} {h : Cells} {a : Addr} {k : Key} {v : Val} {Q
         simp only [hf] at hr
         have : kd.2 = v := by injection hr
         subst this
-        intro r hrm
-        have := declared_refs S k' kd (List.mem_of_find?_eq_some hf) r hrm
-        subst this
-        exact h0 0 (by simp)
+        exact h0 k' kd (List.mem_of_find?_eq_some hf)
 
-theorem resolve_owned {S : Schema} {h : Cells} {Q : Owner → Prop} (hcl : Closed h) (h0 : RefsIn Q h [0]) :
+theorem resolve_owned {S : Schema} {h : Cells} {Q : Owner → Prop} (hcl : Closed h) (h0 : DefaultsIn S Q h) :
     ∀ (p : List Step) (v w : Val), RefsIn Q h v.refs → resolve S h v p = .ok w → RefsIn Q h w.refs := by
   intro p
   induction p with
@@ -396,6 +431,7 @@ theorem resolve_owned {S : Schema} {h : Cells} {Q : Owner → Prop} (hcl : Close
     | int i => simp [resolve] at hr
     | str s => simp [resolve] at hr
     | none => simp [resolve] at hr
+    | elist => cases s <;> simp [resolve] at hr
     | ref a =>
       have ha : RefsIn Q h [a] := by simpa [Val.refs] using hv
       cases s with
@@ -427,9 +463,10 @@ theorem getInst_ok {H : Heap} {a : Nat} {cr : Nat × Addr} (h : getInst H a = .o
   | none => simp [hi] at h
   | some x => simp [hi] at h; rw [h]
 
-theorem mutTarget_owned {S : Schema} {H : Heap} {a : Nat} {p : List Step} {r : Addr} (hi : Inv H)
-    (h : mutTarget S H a p = .ok r) :
-    a < H.insts.length ∧ ∃ c, H.cells[r]? = some c ∧ Mine a c.own := by
+theorem mutTarget_owned_gen {S : Schema} {H : Heap} {a : Nat} {p : List Step} {r : Addr} {Q : Owner → Prop} (hi : Inv H)
+    (hq : Q (Owner.inst a)) (hdef : DefaultsIn S Q H.cells)
+    (h : mutTarget S H a p = .ok (some r)) :
+    a < H.insts.length ∧ ∃ c, H.cells[r]? = some c ∧ Q c.own := by
   unfold mutTarget at h
   obtain ⟨cr, hcr, h⟩ := bind_ok h
   obtain ⟨v, hv, h⟩ := bind_ok h
@@ -437,9 +474,9 @@ theorem mutTarget_owned {S : Schema} {H : Heap} {a : Nat} {p : List Step} {r : A
   have hlt : a < H.insts.length := (List.getElem?_eq_some_iff.mp hcr').1
   refine ⟨hlt, ?_⟩
   obtain ⟨c0, hc0, ho0⟩ := hi.roots a cr hcr'
-  have hroot : RefsIn (Mine a) H.cells (Val.ref cr.2).refs := by
-    intro x hx; simp [Val.refs] at hx; subst hx; exact ⟨c0, hc0, Or.inl ho0⟩
-  have := resolve_owned hi.closed (hi.refs0 a) p _ v hroot hv
+  have hroot : RefsIn Q H.cells (Val.ref cr.2).refs := by
+    intro x hx; simp [Val.refs] at hx; subst hx; exact ⟨c0, hc0, by rw [ho0]; exact hq⟩
+  have := resolve_owned hi.closed hdef p _ v hroot hv
   cases v with
   | ref x =>
     simp at h; subst h
@@ -447,7 +484,18 @@ theorem mutTarget_owned {S : Schema} {H : Heap} {a : Nat} {p : List Step} {r : A
   | int i => simp at h
   | str s => simp at h
   | none => simp at h
+  | elist => simp at h
 
+theorem mutTarget_owned {S : Schema} {H : Heap} {a : Nat} {p : List Step} {r : Addr} (hi : Inv H)
+    (h : mutTarget S H a p = .ok (some r)) :
+    a < H.insts.length ∧ ∃ c, H.cells[r]? = some c ∧ Mine a c.own :=
+  mutTarget_owned_gen hi (Or.inl rfl) (defaultsIn_of_zero (hi.refs0 a)) h
+
+/-- with the repaired default a chain of reads can only end in one of the instance's own cells -/
+theorem mutTarget_owned_fresh {S : Schema} (hS : S.freshArrayDefault = true) {H : Heap} {a : Nat} {p : List Step} {r : Addr}
+    (hi : Inv H) (h : mutTarget S H a p = .ok (some r)) :
+    ∃ c, H.cells[r]? = some c ∧ c.own = Owner.inst a :=
+  (mutTarget_owned_gen (Q := (· = Owner.inst a)) hi rfl (defaultsIn_of_fresh hS _ _) h).2
 
 /-! ### every operation respects ownership -/
 
@@ -585,9 +633,9 @@ theorem create_sound {H : Heap} (t : Tree) (c : Nat) (root : Addr) (hi : Inv H)
 
 theorem classSafe_owner {S : Schema} {H : Heap} {op : Op} {a : Nat} {p : List Step} {r : Addr} {c : Cell}
     (hw : writeOwner S H op = (match mutTarget S H a p with
-      | .ok r => (H.cells[r]?).map (·.own)
-      | .error _ => Option.none))
-    (hsafe : classSafe S H op = true) (ht : mutTarget S H a p = .ok r) (hc : H.cells[r]? = some c)
+      | .ok (some r) => (H.cells[r]?).map (·.own)
+      | _ => Option.none))
+    (hsafe : classSafe S H op = true) (ht : mutTarget S H a p = .ok (some r)) (hc : H.cells[r]? = some c)
     (hm : Mine a c.own) : c.own = Owner.inst a := by
   rcases hm with h | h
   · exact h
@@ -598,7 +646,8 @@ theorem classSafe_owner {S : Schema} {H : Heap} {op : Op} {a : Nat} {p : List St
 
 theorem step_sound {S : Schema} {H H' : Heap} {op : Op} (hi : Inv H) (hs : step S H op = .ok H')
     (hsafe : classSafe S H op = true) :
-    Ext (opOwners H op) H.cells H'.cells ∧ Inv H' ∧ ∃ extra, H'.insts = H.insts ++ extra := by
+    Ext (opOwners H op) H.cells H'.cells ∧ Inv H' ∧
+      (H'.insts = H.insts ∨ ∃ cr, H'.insts = H.insts ++ [cr] ∧ op.target H = H.insts.length) := by
   cases op with
   | new c =>
     simp only [step] at hs
@@ -607,79 +656,94 @@ theorem step_sound {S : Schema} {H H' : Heap} {op : Op} (hi : Inv H) (hs : step 
     · rename_i root hroot
       injection hs with hs; subst hs
       have := create_sound t c root hi hroot
-      exact ⟨this.1, this.2, ⟨_, rfl⟩⟩
+      exact ⟨this.1, this.2, Or.inr ⟨_, rfl, rfl⟩⟩
     · simp at hs
   | read a p =>
     simp only [step] at hs
     obtain ⟨_, _, hs⟩ := bind_ok hs
     obtain ⟨_, _, hs⟩ := bind_ok hs
     injection hs with hs; subst hs
-    exact ⟨(Ext.refl (fun _ => False) _), hi, ⟨[], by simp⟩⟩
+    exact ⟨(Ext.refl (fun _ => False) _), hi, Or.inl rfl⟩
   | encode a =>
     simp only [step] at hs
     obtain ⟨_, _, hs⟩ := bind_ok hs
     injection hs with hs; subst hs
-    exact ⟨(Ext.refl (fun _ => False) _), hi, ⟨[], by simp⟩⟩
+    exact ⟨(Ext.refl (fun _ => False) _), hi, Or.inl rfl⟩
   | assign a p k t =>
     simp only [step] at hs
-    obtain ⟨r, hr, hs⟩ := bind_ok hs
-    obtain ⟨ha, c, hc, hm⟩ := mutTarget_owned hi hr
-    have hown := classSafe_owner (op := .assign a p k t) rfl hsafe hr hc hm
-    rw [hc] at hs
-    rcases c with ⟨o, b⟩
-    cases b with
-    | list xs => simp at hs
-    | buf bs => simp at hs
-    | obj cc st =>
+    obtain ⟨ro, hr, hs⟩ := bind_ok hs
+    cases ro with
+    | none => simp at hs
+    | some r =>
       simp only at hs
-      obtain ⟨t', _, hs⟩ := bind_ok hs
-      injection hs with hs; subst hs
-      have := mutate_sound t' (.obj cc (storeSet st k (allocTree (Owner.inst a) t' H.cells).2)) hi ha hc hown storeSet_refs
-      exact ⟨this.1, this.2, ⟨[], by simp⟩⟩
+      obtain ⟨ha, c, hc, hm⟩ := mutTarget_owned hi hr
+      have hown := classSafe_owner (op := .assign a p k t) rfl hsafe hr hc hm
+      rw [hc] at hs
+      rcases c with ⟨o, b⟩
+      cases b with
+      | list xs => simp at hs
+      | buf bs => simp at hs
+      | obj cc st =>
+        simp only at hs
+        obtain ⟨t', _, hs⟩ := bind_ok hs
+        injection hs with hs; subst hs
+        have := mutate_sound t' (.obj cc (storeSet st k (allocTree (Owner.inst a) t' H.cells).2)) hi ha hc hown storeSet_refs
+        exact ⟨this.1, this.2, Or.inl rfl⟩
   | append a p t =>
     simp only [step] at hs
-    obtain ⟨r, hr, hs⟩ := bind_ok hs
-    obtain ⟨ha, c, hc, hm⟩ := mutTarget_owned hi hr
-    have hown := classSafe_owner (op := .append a p t) rfl hsafe hr hc hm
-    rw [hc] at hs
-    rcases c with ⟨o, b⟩
-    cases b with
-    | obj cc st => simp at hs
-    | buf bs => simp at hs
-    | list xs =>
+    obtain ⟨ro, hr, hs⟩ := bind_ok hs
+    cases ro with
+    | none =>
       simp only at hs
       injection hs with hs; subst hs
-      have := mutate_sound t (.list (xs ++ [(allocTree (Owner.inst a) t H.cells).2])) hi ha hc hown append_refs
-      exact ⟨this.1, this.2, ⟨[], by simp⟩⟩
+      exact ⟨Ext.refl _ _, hi, Or.inl rfl⟩
+    | some r =>
+      simp only at hs
+      obtain ⟨ha, c, hc, hm⟩ := mutTarget_owned hi hr
+      have hown := classSafe_owner (op := .append a p t) rfl hsafe hr hc hm
+      rw [hc] at hs
+      rcases c with ⟨o, b⟩
+      cases b with
+      | obj cc st => simp at hs
+      | buf bs => simp at hs
+      | list xs =>
+        simp only at hs
+        injection hs with hs; subst hs
+        have := mutate_sound t (.list (xs ++ [(allocTree (Owner.inst a) t H.cells).2])) hi ha hc hown append_refs
+        exact ⟨this.1, this.2, Or.inl rfl⟩
   | setIdx a p i t =>
     simp only [step] at hs
-    obtain ⟨r, hr, hs⟩ := bind_ok hs
-    obtain ⟨ha, c, hc, hm⟩ := mutTarget_owned hi hr
-    have hown := classSafe_owner (op := .setIdx a p i t) rfl hsafe hr hc hm
-    rw [hc] at hs
-    rcases c with ⟨o, b⟩
-    cases b with
-    | obj cc st => simp at hs
-    | buf bs => simp at hs
-    | list xs =>
+    obtain ⟨ro, hr, hs⟩ := bind_ok hs
+    cases ro with
+    | none => simp at hs
+    | some r =>
       simp only at hs
-      obtain ⟨xs', hxs, hs⟩ := bind_ok hs
-      injection hs with hs; subst hs
-      have hx : xs' = xs.set i (allocTree (Owner.inst a) t H.cells).2 := by
-        unfold listSet at hxs
-        split at hxs
-        · injection hxs with hxs; exact hxs.symm
-        · simp at hxs
-      subst hx
-      have := mutate_sound t (.list (xs.set i (allocTree (Owner.inst a) t H.cells).2)) hi ha hc hown set_refs
-      exact ⟨this.1, this.2, ⟨[], by simp⟩⟩
+      obtain ⟨ha, c, hc, hm⟩ := mutTarget_owned hi hr
+      have hown := classSafe_owner (op := .setIdx a p i t) rfl hsafe hr hc hm
+      rw [hc] at hs
+      rcases c with ⟨o, b⟩
+      cases b with
+      | obj cc st => simp at hs
+      | buf bs => simp at hs
+      | list xs =>
+        simp only at hs
+        obtain ⟨xs', hxs, hs⟩ := bind_ok hs
+        injection hs with hs; subst hs
+        have hx : xs' = xs.set i (allocTree (Owner.inst a) t H.cells).2 := by
+          unfold listSet at hxs
+          split at hxs
+          · injection hxs with hxs; exact hxs.symm
+          · simp at hxs
+        subst hx
+        have := mutate_sound t (.list (xs.set i (allocTree (Owner.inst a) t H.cells).2)) hi ha hc hown set_refs
+        exact ⟨this.1, this.2, Or.inl rfl⟩
   | mkbuf a =>
     simp only [step] at hs
     obtain ⟨bs, _, hs⟩ := bind_ok hs
     injection hs with hs; subst hs
     have hal : AllocOK Owner.ext H.cells (H.cells ++ [⟨Owner.ext, Body.buf bs⟩]) :=
       AllocOK.snoc (by intro r hr; simp [Body.refs] at hr)
-    refine ⟨hal.ext, ?_, ⟨[], by simp⟩⟩
+    refine ⟨hal.ext, ?_, Or.inl rfl⟩
     refine Inv.of_ext (H' := { H with cells := H.cells ++ [⟨Owner.ext, Body.buf bs⟩], bufs := H.bufs ++ [H.cells.length] })
       hi hal.ext (hal.closed hi.closed) (by simp) [] (by simp) (by simp) (by simp) [H.cells.length] rfl ?_
     intro x hx
@@ -697,7 +761,7 @@ theorem step_sound {S : Schema} {H H' : Heap} {op : Op} (hi : Inv H) (hs : step 
         · rename_i root hroot
           injection hs with hs; subst hs
           have := create_sound ct.2 ct.1 root hi hroot
-          exact ⟨this.1, this.2, ⟨_, rfl⟩⟩
+          exact ⟨this.1, this.2, Or.inr ⟨_, rfl, rfl⟩⟩
         · simp at hs
       · simp at hs
   | scribble b =>
@@ -711,11 +775,29 @@ theorem step_sound {S : Schema} {H H' : Heap} {op : Op} (hi : Inv H) (hs : step 
         obtain ⟨c, hc, ho⟩ := hi.bufs b ba hba
         have hext : Ext (· = Owner.ext) H.cells (setBody H.cells ba (.buf (bs.map (fun _ => 255)))) :=
           setBody_ext _ hc ho
-        refine ⟨hext, ?_, ⟨[], by simp⟩⟩
+        refine ⟨hext, ?_, Or.inl rfl⟩
         refine Inv.of_ext (H' := { H with cells := setBody H.cells ba (.buf (bs.map (fun _ => 255))) })
           hi hext ?_ (by simp) [] (by simp) (by simp) (by simp) [] (by simp) (by simp)
         exact setBody_closed hi.closed hc (by intro r hr; simp [Body.refs] at hr)
       · simp at hs
+
+/-- with the repaired default every operation is class-safe: no read ever hands out a class-level cell -/
+theorem classSafe_of_fresh {S : Schema} (hS : S.freshArrayDefault = true) {H : Heap} (hi : Inv H) (op : Op) :
+    classSafe S H op = true := by
+  have key : ∀ (a : Nat) (p : List Step),
+      (match mutTarget S H a p with
+        | .ok (some r) => (H.cells[r]?).map (·.own)
+        | _ => Option.none) ≠ some Owner.cls := by
+    intro a p
+    cases hm : mutTarget S H a p with
+    | error e => simp
+    | ok ro =>
+      cases ro with
+      | none => simp
+      | some r =>
+        obtain ⟨c, hc, ho⟩ := mutTarget_owned_fresh hS hi hm
+        simp [hc, ho]
+  cases op <;> simp only [classSafe, writeOwner, bne_iff_ne, ne_eq] <;> first | exact key _ _ | simp
 
 /-! ### the invariant holds in every state a class-safe history reaches -/
 
@@ -731,6 +813,14 @@ theorem run_inv {S : Schema} : ∀ (ops : List Op) (H : Heap), Inv H → safeRun
   | op :: ops, H, hi, hs => by
     simp only [safeRun, Bool.and_eq_true] at hs
     exact run_inv ops (stepK S H op) (stepK_inv hi hs.1) hs.2
+
+/-- with the repaired default every history is class-safe -/
+theorem safeRun_of_fresh {S : Schema} (hS : S.freshArrayDefault = true) :
+    ∀ (ops : List Op) (H : Heap), Inv H → safeRun S H ops = true
+  | [], _, _ => rfl
+  | op :: ops, H, hi => by
+    simp only [safeRun, Bool.and_eq_true]
+    exact ⟨classSafe_of_fresh hS hi op, safeRun_of_fresh hS ops _ (stepK_inv hi (classSafe_of_fresh hS hi op))⟩
 
 theorem safeRun_append {S : Schema} : ∀ (ops : List Op) (H : Heap) (op : Op),
     safeRun S H (ops ++ [op]) = true → safeRun S H ops = true ∧ classSafe S (run S H ops) op = true
@@ -762,94 +852,17 @@ theorem frame_core {S : Schema} {H H' : Heap} {op : Op} (hi : Inv H) (hs : step 
     (hsafe : classSafe S H op = true) {b : Nat} (hb : b ≠ op.target H) :
     H'.insts[b]? = H.insts[b]? ∧
     ∀ (n : Nat) (v : Val), RefsIn (Mine b) H.cells v.refs → deref S n H'.cells v = deref S n H.cells v := by
-  obtain ⟨hext, _, extra, hins⟩ := step_sound hi hs hsafe
+  obtain ⟨hext, _, hins⟩ := step_sound hi hs hsafe
   constructor
-  · rw [hins]
-    by_cases hlt : b < H.insts.length
-    · exact List.getElem?_append_left hlt
-    · have hle := Nat.le_of_not_lt hlt
-      rw [List.getElem?_append_right hle, List.getElem?_eq_none_iff.mpr hle]
-      -- only `new` / `decode` extend the table, by exactly the target
-      cases op with
-      | new c =>
-        simp only [step] at hs
-        obtain ⟨t, _, hs⟩ := bind_ok hs
-        split at hs
-        · injection hs with hs; subst hs
-          simp only [List.append_cancel_left_eq] at hins
-          subst hins
-          simp only [Op.target] at hb
-          have : b - H.insts.length ≠ 0 := by omega
-          rw [List.getElem?_eq_none_iff]; simp; omega
-        · simp at hs
-      | decode c bb =>
-        simp only [step] at hs
-        split at hs
-        · simp at hs
-        · split at hs
-          · obtain ⟨ct, _, hs⟩ := bind_ok hs
-            split at hs
-            · injection hs with hs; subst hs
-              simp only [List.append_cancel_left_eq] at hins
-              subst hins
-              simp only [Op.target] at hb
-              rw [List.getElem?_eq_none_iff]; simp; omega
-            · simp at hs
-          · simp at hs
-      | read a p =>
-        simp only [step] at hs
-        obtain ⟨_, _, hs⟩ := bind_ok hs
-        obtain ⟨_, _, hs⟩ := bind_ok hs
-        injection hs with hs; subst hs
-        have : extra = [] := by simpa using hins
-        subst this; simp
-      | encode a =>
-        simp only [step] at hs
-        obtain ⟨_, _, hs⟩ := bind_ok hs
-        injection hs with hs; subst hs
-        have : extra = [] := by simpa using hins
-        subst this; simp
-      | assign a p k t =>
-        simp only [step] at hs
-        obtain ⟨r, _, hs⟩ := bind_ok hs
-        split at hs
-        · obtain ⟨t', _, hs⟩ := bind_ok hs
-          injection hs with hs; subst hs
-          have : extra = [] := by simpa using hins
-          subst this; simp
-        · simp at hs
-      | append a p t =>
-        simp only [step] at hs
-        obtain ⟨r, _, hs⟩ := bind_ok hs
-        split at hs
-        · injection hs with hs; subst hs
-          have : extra = [] := by simpa using hins
-          subst this; simp
-        · simp at hs
-      | setIdx a p i t =>
-        simp only [step] at hs
-        obtain ⟨r, _, hs⟩ := bind_ok hs
-        split at hs
-        · obtain ⟨xs', _, hs⟩ := bind_ok hs
-          injection hs with hs; subst hs
-          have : extra = [] := by simpa using hins
-          subst this; simp
-        · simp at hs
-      | mkbuf a =>
-        simp only [step] at hs
-        obtain ⟨bs, _, hs⟩ := bind_ok hs
-        injection hs with hs; subst hs
-        have : extra = [] := by simpa using hins
-        subst this; simp
-      | scribble bb =>
-        simp only [step] at hs
-        split at hs
-        · simp at hs
-        · split at hs
-          · injection hs with hs; subst hs
-            have : extra = [] := by simpa using hins
-            subst this; simp
-          · simp at hs
+  · rcases hins with hins | ⟨cr, hins, htgt⟩
+    · rw [hins]
+    · rw [hins]
+      rw [htgt] at hb
+      by_cases hlt : b < H.insts.length
+      · exact List.getElem?_append_left hlt
+      · have hle := Nat.le_of_not_lt hlt
+        rw [List.getElem?_append_right hle, List.getElem?_eq_none_iff.mpr hle, List.getElem?_eq_none_iff]
+        simp; omega
   · intro n v hv
     apply deref_agree S (Mine b) H.cells H'.cells ?_ hi.closed (hi.refs0 b) n v hv
     intro a c hc hq
